@@ -58,6 +58,11 @@ func requestTableGuards(ctx *Ctx, r *Result) (*RequestTable, bool) {
 	if ok {
 		r.ok("R0.1", "request-closure", len(rt.Paths), fmt.Sprintf("%d paths over %d functions", len(rt.Paths), len(rt.Funcs)))
 	}
+	// the table describes what runs for a request only if Wrap hands out this
+	// very closure and consults the state per request, not at wrap time
+	if _, done := r.RuleDocs["R11.6"]; !done {
+		wrapReturnsClosure(ctx, r, "R11.6")
+	}
 	if len(rt.Paths) < 100 {
 		r.undecided("R0.1", "path-count", fmt.Sprintf("only %d request paths found, expected several hundred", len(rt.Paths)))
 		ok = false
